@@ -1391,8 +1391,12 @@ class AdapterIndex:
                         other_adapter, other_errors, other_matches = index[s]
                         if matches < other_matches:
                             continue
-                        if other_matches == matches and s not in ambiguous:
-                            ambiguous[s] = (adapter, other_adapter, k, matches)
+                        if other_matches == matches:
+                            if s not in ambiguous:
+                                ambiguous[s] = (adapter, other_adapter, k, matches)
+                        else:
+                            # A strictly better candidate replaces the previous ones
+                            ambiguous.pop(s, None)
                     index[s] = (adapter, errors, matches)
                     lengths.add(len(s))
             else:
@@ -1404,8 +1408,12 @@ class AdapterIndex:
                             other_adapter, other_errors, other_matches = index[s]
                             if matches < other_matches:
                                 continue
-                            if other_matches == matches and s not in ambiguous:
-                                ambiguous[s] = (adapter, other_adapter, k, matches)
+                            if other_matches == matches:
+                                if s not in ambiguous:
+                                    ambiguous[s] = (adapter, other_adapter, k, matches)
+                            else:
+                                # A strictly better candidate replaces the previous ones
+                                ambiguous.pop(s, None)
                         index[s] = (adapter, errors, matches)
                 lengths.add(n)
 
